@@ -102,13 +102,13 @@ P('C12', ['applyLogEntries', 'doApplyCommand'],
 
 P('C15', [], 'filled below', 'filled below', modules=['contracts.bat_containers'], trusted=['T-BUILTIN: the builtin operations named in the contracts behave as documented'])
 
-P('C16', ['lock.acquire', 'lock.prolongate', 'lock.release', 'lock.isAcquired'],
+P('C16', ['lock.acquire', 'lock.prolongate', 'lock.release', 'lock.isAcquired', 'lock.tryAcquire'],
   'Exact functional contracts of the four _ReplLockManagerImpl methods against spec functions written from the statement, the '
   'single-step rule S (holder changes only after expiry, only the holder can release), and lemma L-LOCK over the same spec functions: '
   'a lagging and a current replica never both report different holders at one instant (common clock).',
-  'Lock table with 3 symbolic entries plus arbitrary probe key (keys symbolic). The client wrapper ReplLockManager.tryAcquire '
-  '(late-acquire check, threads) is not under contract. "Eventually obtainable" is proved in its safety form only.',
-  lemmas=['L-LOCK'], modules=['contracts.bat_lock'], trusted=[],
+  'Lock table with 3 symbolic entries plus arbitrary probe key (keys symbolic). The client wrapper ReplLockManager.tryAcquire (late-acquire '
+  'check) is unit lock.tryAcquire; its prolongation thread is not under contract. "Eventually obtainable" is proved in its safety form only.',
+  lemmas=['L-LOCK', 'X-LOCKS'], modules=['contracts.bat_lock'], trusted=[],
   assumptions=['A-LOCKTIME: one client\'s timestamps are non-decreasing in log order; a command\'s timestamp is a clock reading taken before it is applied'])
 
 P('C17', ['replicated.newFunc', 'applyLogEntries', 'doApplyCommand', 'loadDumpFile', 'setCodeVersion'],
@@ -227,15 +227,35 @@ def _lemma_public_methods():
 
 
 LEMMAS['C15-coverage'] = _lemma_public_methods
-P('C15', _bc.ALL_UNITS,
+
+
+def _x_batteries():
+    import os
+    from contracts import crosscheck
+    if os.environ.get('VERIF_TIER', '') != 'thorough' and os.environ.get('PYVC_TIER', '') != 'thorough':
+        return []
+    return crosscheck.crosscheck_batteries(int(os.environ.get('VERIF_SEED', '0') or 0))
+
+
+def _x_locks():
+    import os
+    from contracts import crosscheck
+    if os.environ.get('VERIF_TIER', '') != 'thorough' and os.environ.get('PYVC_TIER', '') != 'thorough':
+        return []
+    return crosscheck.crosscheck_locks(int(os.environ.get('VERIF_SEED', '0') or 0))
+
+
+LEMMAS['X-BATTERIES'] = _x_batteries
+LEMMAS['X-LOCKS'] = _x_locks
+P('C15', _bc.ALL_UNITS + ['consumer.serialize'],
   'Every public method of ReplCounter/ReplList/ReplDict/ReplSet/ReplQueue/ReplPriorityQueue (57, counted from the AST on every run) is '
   'executed symbolically against a recording stand-in of the builtin container of unbounded size; the contract, written from the Python '
   'documentation of list/dict/set/deque/heapq, says which builtin operation with which arguments the call must amount to (defaults '
   'and documented errors included) and what it returns; bounded queues refuse exactly when maxsize > 0 and len >= maxsize; replicated '
   'methods must be functions of (state, arguments).',
   'T-BUILTIN: the builtins themselves behave as documented. "After replication all replicas are equal" additionally needs C01. '
-  'ReplSet.pop is a known finding (D15). Consumer (de)serialisation is covered where the unit consumer.serialize is built.',
-  lemmas=['C15-coverage'], modules=['contracts.bat_containers'], trusted=['T-BUILTIN'])
+  'ReplSet.pop is a known finding (D15). Consumer (de)serialisation: unit consumer.serialize.',
+  lemmas=['C15-coverage', 'X-BATTERIES'], modules=['contracts.bat_containers'] + SO_MODS, trusted=['T-BUILTIN'])
 
 P('C08', ['ResizableFile.write', 'ResizableFile.read', 'FileJournal.add', 'FileJournal.clear', 'FileJournal.deleteEntriesFrom',
           'FileJournal.deleteEntriesTo', 'FileJournal.reopen', 'FileJournal.access', 'MemoryJournal'],
